@@ -64,7 +64,14 @@ func Random(r *rng.R, n int, o tgen.Opts) []Input {
 		oo := o
 		oo.Templates = 1 + r.Intn(3)
 		oo.Depth = 2 + r.Intn(3)
-		res = append(res, Input{Name: fmt.Sprintf("gen%04d.templ", i), Src: tgen.File(r.Fork(), oo)})
+		src := tgen.File(r.Fork(), oo)
+		name := fmt.Sprintf("gen%04d.templ", i)
+		if o.Layout && i%7 == 3 {
+			// a file saved with CRLF line endings
+			src = strings.ReplaceAll(src, "\n", "\r\n")
+			name = fmt.Sprintf("gen%04d-crlf.templ", i)
+		}
+		res = append(res, Input{Name: name, Src: src})
 	}
 	return res
 }
